@@ -144,6 +144,19 @@ BUILT = {
         'symbolic cell values and every pattern of empty cells of the enumerated sheets: one record per row in order, containing exactly the '
         'non-empty cells under their trimmed / special-form keys (no leak between rows, empty cells never appear).',
    note=BASE_NOTE + '; pandas.read_excel / iterrows / items / isnull are an assumed contract (DataFrame model incl. duplicate-header mangling); natively real .xlsx files are written and read'),
+ 'C06': dict(level='other', sec='4/C06',
+   text='Deductive, on enumerated mechanism shapes (real ChemkinReaction / Reactions / CatSite objects over abstract species; symbolic T, site '
+        'densities, sticking coefficients, beta, run conditions, mole fractions; numbers in printed form are the uninterpreted text '
+        'format(value, spec)): every reaction line is the equation padded to the common width followed by A (or the sticking coefficient), beta '
+        'and Ea = the value the activation method returns at (units, T), STICK after adsorption lines, for E/H/G methods in dimensional and '
+        'dimensionless form; gas.inp = ELEMENTS (every element once), SPECIES (gas species once, in order), REACTIONS (exactly the all-gas '
+        'reactions); surf.inp = SITE line with SDEN, its adsorbates with occupancy, BULK lines with density, MWON/MWOFF + unit header, exactly '
+        'the other reactions; EAs/EAg = declared count, one row per reaction of the phase with the barrier at every run; T_flow rows with run '
+        'numbers; tube_mole = declared count, one row per named species, 0 for a run that does not name it; gas_phase flag = all reactants '
+        'gaseous (= all species gaseous for the site-balanced shapes). Bounded (labelled): random mechanisms of 1-40 reactions, 1-3 sites: '
+        'read back with read_reactions, numbers parsed from the text against the model to the printed precision, sections and counts.',
+   note=BASE_NOTE + '; species are abstract callees ignoring the keywords units/activation; format(x, spec) is a function of (spec, x) with exact '
+        'E-format width; str(datetime.now()) is one line; mechanism shapes enumerated, larger ones only by the bounded check; one known finding (D31)'),
 }
 REASON_PENDING = 'check not built yet (build phase in progress; see DESIGN.md section 10)'
 checks = []
